@@ -13,14 +13,15 @@ variable {α : Type}
 
 /-! ### messages both ends can carry -/
 
-/-- the serialisation fits the default receive limit (4 MiB), hence also the 32-bit length -/
-def MsgOk (cd : Codec α) (m : α) : Prop := (cd.ser m).length ≤ defaultMaxRecv
+/-- the encoder serialises the message, and the serialisation fits the default receive limit
+(4 MiB), hence also the 32-bit length -/
+def MsgOk (cd : Codec α) (m : α) : Prop := cd.serFail m = false ∧ (cd.ser m).length ≤ defaultMaxRecv
 
 theorem encodeErr_none (c : Cfg α) (server : Bool) (m : α) (h : MsgOk c.cd m) :
     encodeErr c.cd (encCfg c server) m = none := by
   have : ¬ (c.cd.ser m).length > u32Max := by
     simp only [MsgOk, defaultMaxRecv] at h; simp only [u32Max]; omega
-  simp [encodeErr, encCfg, Framing.payload, this]
+  simp [encodeErr, encCfg, Framing.payload, this, h.1]
 
 theorem okPrefix_srcOf (c : Cfg α) (server : Bool) (sched : Sched α) (tail : List (SrcEv α))
     (h : ∀ m ∈ sched.msgs, MsgOk c.cd m) :
